@@ -381,24 +381,29 @@ def avoid_system_syncs(fnc: Callable[..., Awaitable[None]]) -> Callable[..., Any
                 < SYNC_WINDOW_UPPER
             )
 
-        start = perf_counter()  # TODO: remove
+        # frames pass the hold-back one at a time, in the order they were offered (else
+        # one offered after the window has closed overtakes one still waiting it out)
+        lock = args[0].__dict__.setdefault("_sync_cycle_lock", asyncio.Lock())
 
-        # wait for the start of the sync cycle (I|1F09|003, Tx time ~0.009)
-        while any(is_imminent(p) for p in _global_sync_cycles):
-            await asyncio.sleep(SYNC_WAIT_SHORT)
+        async with lock:
+            start = perf_counter()  # TODO: remove
 
-        # wait for the remainder of sync cycle (I|2309/30C9) to complete
-        if (x := perf_counter() - start) > SYNC_WAIT_SHORT:
-            await asyncio.sleep(SYNC_WAIT_LONG)
-            # FIXME: remove this block, and merge both ifs
-            times_0.append(x)
-            _LOGGER.warning(
-                f"*** sync cycle stats: {x:.3f}, "
-                f"avg: {sum(times_0) / len(times_0):.3f}, "
-                f"lower: {min(times_0):.3f}, "
-                f"upper: {max(times_0):.3f}, "
-                f"times: {[f'{t:.3f}' for t in times_0]}"
-            )  # TODO: wrap with if effectiveloglevel
+            # wait for the start of the sync cycle (I|1F09|003, Tx time ~0.009)
+            while any(is_imminent(p) for p in _global_sync_cycles):
+                await asyncio.sleep(SYNC_WAIT_SHORT)
+
+            # wait for the remainder of sync cycle (I|2309/30C9) to complete
+            if (x := perf_counter() - start) > SYNC_WAIT_SHORT:
+                await asyncio.sleep(SYNC_WAIT_LONG)
+                # FIXME: remove this block, and merge both ifs
+                times_0.append(x)
+                _LOGGER.warning(
+                    f"*** sync cycle stats: {x:.3f}, "
+                    f"avg: {sum(times_0) / len(times_0):.3f}, "
+                    f"lower: {min(times_0):.3f}, "
+                    f"upper: {max(times_0):.3f}, "
+                    f"times: {[f'{t:.3f}' for t in times_0]}"
+                )  # TODO: wrap with if effectiveloglevel
 
         await fnc(*args, **kwargs)
         return None
